@@ -44,8 +44,10 @@ InitOnceInOrder(G) ==       \* the two facts the property states, as consequence
     IN  /\ \A m \in Reach(G, 0) : Cardinality({p \in 1..Len(out) : out[p] = m}) = 1
         /\ \A m \in Reach(G, 0) : \A d \in Targets(G, m) : pos(d) < pos(m)
 
-(* visibility in the main module of the names of module j:  "pub" = wert<j>, "fn" = zeige<j>, "priv" = geheim<j> *)
+(* visibility in the main module of the names of module j:  "pub" = wert<j>, "fn" = zeige<j>, "priv" = geheim<j>;
+   "reexp" = a public name of a module that j itself imports, asked for by a selective import from j: a module exposes
+   exactly its own public declarations, never the ones it imported *)
 Visible(G, j, name) ==
-    /\ name # "priv"
+    /\ name \in {"pub", "fn"}
     /\ \E k \in 1..Len(G.imp[1]) : G.imp[1][k].t = j /\ (G.imp[1][k].sel = "all" \/ G.imp[1][k].sel = name)
 =============================================================================
